@@ -201,6 +201,43 @@ def do_add(ctx: Ctx, c: Coll, fn, name, where):
         ctx.violation("add-wrong-exception", f"adding {name!r} raised {exc_name(e)}: {e}", {**where, "name": name})
 
 
+def auto_name_directed(ctx: Ctx):
+    """automatically chosen names where the numbered series is long or has gaps: twelve unnamed adds in a row, and unnamed adds
+    next to siblings called '<prefix> 9' / '<prefix> 10' (any case, added or renamed) - every chosen name must be fresh
+    (differ from every sibling ignoring case); which free number is chosen is not prescribed."""
+    from numbers_parser import Document
+    cases = [("twelve unnamed adds", []), ("9 and 10 taken", ["Table 9", "table 10"]), ("10 and 11 by rename", ["x", "y"]),
+             ("2 and 20 taken", ["TABLE 2", "Table 20"])]
+    for label, given in cases:
+        for kind in ("table", "sheet"):
+            doc = Document()
+            coll = doc.sheets[0].tables if kind == "table" else doc.sheets
+            add = (lambda n=None: doc.sheets[0].add_table(n, num_rows=2, num_cols=2) if n else doc.sheets[0].add_table(num_rows=2, num_cols=2)) \
+                if kind == "table" else (lambda n=None: doc.add_sheet(n) if n else doc.add_sheet())
+            prefix = "Table" if kind == "table" else "Sheet"
+            log = []
+            try:
+                for n in given:
+                    add(n.replace("Table", prefix).replace("table", prefix.lower()).replace("TABLE", prefix.upper()))
+                if label == "10 and 11 by rename":
+                    coll[len(coll) - 2].name = f"{prefix} 10"
+                    coll[len(coll) - 1].name = f"{prefix.lower()} 11"
+                for _ in range(12 if not given else 4):
+                    before = [x.name for x in coll]
+                    add()
+                    new = coll[len(coll) - 1].name
+                    log.append(new)
+                    ctx.count("automatically chosen names in long / gapped numbered series: fresh ignoring case", 1)
+                    if new.lower() in [b.lower() for b in before]:
+                        ctx.violation("add-creates-ci-duplicate", f"unnamed add_{kind} next to {before!r} chose {new!r}, equal to a "
+                                      f"sibling ignoring case ({label})", {"directed": label, "kind": kind, "chosen": log})
+                        break
+            except Exception as e:  # noqa: BLE001
+                ctx.violation("add-wrong-exception", f"unnamed add_{kind} ({label}) raised {exc_name(e)}: {e}",
+                              {"directed": label, "kind": kind, "chosen": log})
+            ctx.mark(("auto-name", label, kind))
+
+
 def one_history(ctx: Ctx, hid: int, nops: int, save: bool, src):
     from numbers_parser import Document
     rng = ctx.rng
@@ -296,6 +333,7 @@ def _worker(task):
 def run(ctx: Ctx):
     import warnings
     warnings.simplefilter("ignore")
+    auto_name_directed(ctx)
     n_hist = 400 if ctx.quick else 6000
     srcs = [None, None, None, str(REPO / "tests/data/test-1.numbers"), str(REPO / "tests/data/test-formulas.numbers")]
     tasks = []
